@@ -1,4 +1,4 @@
-CONSTANTS SIZES = {1, 2, 3}  TMAX = 3  WMAX = 5  MAXE = 2  MAXW = 2  ITERS = 1  KEYS = {0}  BEFORE = FALSE  FIX_F4 = TRUE
+CONSTANTS SIZES = {1, 2}  TMAX = 3  WMAX = 5  MAXE = 2  MAXW = 2  ITERS = 1  KEYS = {0}  BEFORE = FALSE  FIX_F4 = TRUE
 SPECIFICATION Spec
 INVARIANTS C06_Late EmitReplay
 CHECK_DEADLOCK FALSE
